@@ -1,0 +1,13 @@
+//go:build verif
+
+// Contracts for the verifier in /verif (comment-only; compiled only with -tags verif, adds no code).
+package schemahelper
+
+// ---- C16: when the second-level lookup succeeds, the body AND the keys returned are the ones that lookup
+// ---- selected (links are attached to exactly those keys).
+//@ contract (schemahelper.blockSchema).DependentBodySchema (bs, block) (body, keys, result)
+//@   ghost nestedKeys after (schemahelper.blockSchema).DependentBodySchema#1 : dks
+//@   ghost nestedBody after (schemahelper.blockSchema).DependentBodySchema#1 : depBodySchema
+//@   ghost nestedFound after (schemahelper.blockSchema).DependentBodySchema#1 : nestedOk == LookupSuccessful
+//@   ensures [C16] implies(nestedFound, result == LookupSuccessful && keys == nestedKeys && body == nestedBody)
+//@   ensures [C16] implies(result == NoDependentKeys, body == bs.Body)
